@@ -41,6 +41,12 @@ SPECS["C12"] = dict(
     theorems=[
         "Woodpile.Props.C12.new_no_panic",
         "Woodpile.Props.C12.new_accepts_iff",
+        "Woodpile.Props.C12.accessors_agree",
+        "Woodpile.Props.C12.no_panic",
+        "Woodpile.Props.C12.values_tile",
+        "Woodpile.Props.C12.oob_none",
+        "Woodpile.Props.C12.std_search_ok",
+        "Woodpile.Props.C12.find_sound",
     ],
     families=[dict(name="tlvview", quick=3000, thorough=400000)],
     technique="Lean 4 proof (all byte strings; checked slicing so that panic-freedom is a theorem) + model/implementation correspondence",
